@@ -304,9 +304,25 @@ def guarded(rec, name, case, f):
         return f(), None
     except Exception as e:
         ename = type(e).__name__
+        if isinstance(e, TypeError) and 'NoneType' in str(e) and _raised_in(e, 'LU_decomp'):
+            # mechanism of C30/singular/*/TypeError-no-pivot: LU_decomp leaves p[j] = None on an exactly zero pivot column and
+            # raises TypeError, which the `except ZeroDivisionError` retry logic of sqrtm cannot catch
+            rec.violation('C32/%s/LU_decomp-TypeError-no-pivot' % name.split('-')[0],
+                          '%s fails with TypeError: inverse() inside the iteration hits an exactly zero pivot column and LU_decomp raises '
+                          'TypeError instead of the ZeroDivisionError that the retry logic expects' % name, case, '%s: %s' % (ename, e), 'a matrix')
+            return None, e
         rec.violation('C32/%s/raised-%s' % (name, ename), '%s raised %s inside the envelope' % (name, ename), case,
                       '%s: %s' % (ename, e), 'a matrix')
         return None, e
+
+
+def _raised_in(exc, funcname):
+    tb = exc.__traceback__
+    while tb is not None:
+        if tb.tb_frame.f_code.co_name == funcname:
+            return True
+        tb = tb.tb_next
+    return False
 
 
 def _ref_exp(d, p):
